@@ -972,6 +972,13 @@ def compile_comprehension(compiler, expr, root, parts, final):
                 p.tag == "do"
                 or (
                     p.value[1].stmts
+                    # Python forbids an assignment expression in the
+                    # iterable of a real comprehension, and `:setv`
+                    # would put its value there.
+                    or any(
+                        isinstance(n, ast.NamedExpr)
+                        for n in ast.walk(p.value[1].expr)
+                    )
                     if p.tag in ("for", "afor", "setv")
                     else p.value.stmts
                 )
